@@ -1,5 +1,5 @@
 (** C09 — the helper threads' reads of the option values and of the table geometry / generation.
-    They are plain reads of objects written by the engine thread (Parameters::set listeners in
+    They are plain reads of objects written by the engine thread (the option listeners called from
     setOptions) and by the UCI thread (tt.nextGeneration() in go); what orders them is the
     message traffic of the search-control protocol:
       writer --> engine thread --START_SEARCH (mailbox mutex of the helper)--> helper's read,
